@@ -235,6 +235,10 @@ class Pipeline(object):
             _logger.debug('Waiting for workers to stop.')
             yield from asyncio.wait(self._worker_tasks)
 
+            for task in self._worker_tasks:
+                # Re-raise the exception of a worker that failed while stopping
+                task.result()
+
         _logger.debug('Waiting for producer to stop.')
 
         self._worker_tasks.clear()
